@@ -158,7 +158,14 @@ class _Stub:
         self.submitted.append(path)
 
     async def run_promoted_hash_jobs(self, to_check, cause):
+        import os
+
+        from stepup.core.exceptions import HashFailedError
+
         self.submitted.extend(to_check)
+        for path in to_check:
+            if os.path.isdir(path):  # what `compute_file_digest` does with a directory
+                raise HashFailedError(f"Cannot hash a directory: {path}")
 
     def defer(self, job_i, **kwargs):
         self.deferred.append(job_i)
@@ -197,6 +204,9 @@ async def handler_case(ctx, i: int):
                                       builder=stub, watcher=None, stop_event=asyncio.Event())
             async with wf.db:
                 wf.define_step(wf.root, "./plan.py", need=Need.PLAN, _safe=True)
+            with open("blk", "w") as fh:
+                fh.write("a regular file\n")
+            os.makedirs("d/sub", exist_ok=True)
             jobs = {}
             job = await sched.pop_next_job()
             jobs["./plan.py"] = job.job_i
@@ -215,7 +225,13 @@ async def handler_case(ctx, i: int):
                                                r.choice([Need.DEFAULT.value, Need.OPTIONAL.value, Need.PLAN.value]),
                                                {}, False, None, None)
                 elif kind == "amend":
-                    args = (paths((0, 1, 2)), set(r.sample(["V1", "V2"], r.choice((0, 1)))), paths((0, 1, 2)), paths((0, 0, 1)))
+                    args = [paths((0, 1, 2)), set(r.sample(["V1", "V2"], r.choice((0, 1)))), paths((0, 1, 2)), paths((0, 0, 1))]
+                    k = r.random()
+                    if k < 0.15:
+                        args[2] = args[2] + ["blk/deep/o.txt"]  # `blk` is a regular file: the directory cannot be created
+                    elif k < 0.3:
+                        args[0] = args[0] + ["d/sub"]  # a directory (inside a static tree or not) named as a file input
+                    args = tuple(args)
                     call = handler.amend_step(job_i, *args)
                 elif kind == "static":
                     pats = []
@@ -255,10 +271,12 @@ async def handler_case(ctx, i: int):
                 if err is not None:
                     ctx.stats.count("handler-requests-rejected:" + kind)
                     if after != before:
-                        found.append((f"rejected-handler-request-left-traces:{kind}",
+                        mech = ":hash-job-failed-after-commit" if err.startswith("HashFailedError") else ""
+                        found.append((f"rejected-handler-request-left-traces:{kind}{mech}",
                                       f"the rejected {kind} request of '{label}' ({err[:120]}) changed the stored workflow",
                                       {"changed_rows": sorted(set(after) ^ set(before))[:8], "requests": log[-10:]}))
-                        break
+                        if not mech:
+                            break
                 # let the build make progress so that other steps can issue requests too
                 if r.random() < 0.4:
                     job = await sched.pop_next_job()
